@@ -332,13 +332,23 @@ type c19responder struct {
 	mode     string // normal, silent, nak-request, nak-renew, silent-renew, arp-conflict
 	acks     int
 	arpOwner bool // answer ARP for the server address (enables unicast renewal)
+	domain   string
+	dns2     bool
 }
 
 func (rs *c19responder) reply(req wreply, typ byte) []byte {
 	m := wmsg{op: 2, htype: 1, hlen: 6, xid: req.msg.xid, flags: req.msg.flags, yiaddr: rs.yiaddr, siaddr: rs.srvIP, chaddr: req.msg.chaddr, cookie: 0x63825363}
 	m.opts = []wopt{{53, []byte{typ}}, {54, u32b(rs.srvIP)}}
 	if typ != 6 {
-		m.opts = append(m.opts, wopt{51, u32b(rs.lease)}, wopt{1, u32b(0xffffff00)}, wopt{3, u32b(rs.srvIP)}, wopt{6, u32b(rs.srvIP)})
+		m.opts = append(m.opts, wopt{51, u32b(rs.lease)}, wopt{1, u32b(0xffffff00)}, wopt{3, u32b(rs.srvIP)})
+		if rs.dns2 {
+			m.opts = append(m.opts, wopt{6, append(u32b(rs.srvIP), u32b(rs.srvIP+1)...)})
+		} else {
+			m.opts = append(m.opts, wopt{6, u32b(rs.srvIP)})
+		}
+		if rs.domain != "" {
+			m.opts = append(m.opts, wopt{15, []byte(rs.domain)})
+		}
 	} else {
 		m.yiaddr = 0
 	}
